@@ -194,6 +194,55 @@ def run(ctx, chk):
                    '%s gives a descriptor it was handed (not one it just opened) a second owner on the client open path' % nm_)
     chk.ob('C16.V2', 'open:one-owner-per-descriptor', n_fd == 0, m.body.where(0),
            '%d from_raw_fd call(s) reachable from the client open routine' % n_fd, nontrivial=False)
+    # no descriptor is left behind: on every path of the client open routine -- the failing ones above all -- each descriptor
+    # it opened is closed, dropped inside a value whose Drop closes it, or handed out inside such a value. (A client that
+    # polls for the daemon's first publication opens a not-yet-valid file again and again.)
+    closers = {b.impl_self for b in fb.bodies(common.SHM) if b.name == 'drop' and (b.impl_trait or '').endswith('Drop') and b.impl_self and
+               common.reaches_call(fb, b, lambda n: n.split('::')[-1] == 'close')}
+    std_owners = ('std::fs::File', 'std::os::fd::OwnedFd', 'std::os::fd::owned::OwnedFd')
+
+    def holds(v, fd_t, depth=0):
+        """is the descriptor inside a value of a type that closes it when dropped?"""
+        if v is None or depth > 5 or not isinstance(v, tuple) or not v:
+            return False
+        if v[0] == 'agg':
+            own = v[1] in closers or v[1].startswith(std_owners)
+            if own and any(y == fd_t for y in psi.walk(v)):
+                return True
+            return any(holds(f, fd_t, depth + 1) for f in v[3])
+        return False
+    n_open = 0
+    leak_sites = {}
+    for row in m.rows:
+        p_ = row['path']
+        if p_.kind != 'return':
+            continue
+        for n_, ef in enumerate(p_.effects):
+            if not (ef['kind'] == 'call' and not ef['tracing'] and ef['callee'].split('::')[-1] in ('open', 'openat', 'open64') and not ef['callee'].startswith('std::')):
+                continue
+            fd_t = psi.T('call', ef['callee'], n_, *ef['args'])
+            failed = any(a == 'open<0' and not ok for a, ok in row['atoms'])
+            if failed:
+                continue
+            n_open += 1
+            released = False
+            for e2 in p_.effects[n_ + 1:]:
+                if e2['kind'] == 'call' and e2['callee'].split('::')[-1] == 'close' and any(y == fd_t for a in e2['args'] for y in psi.walk(a)):
+                    released = True
+                if e2['kind'] == 'drop' and holds(e2.get('value'), fd_t):
+                    released = True
+            if not released and holds(p_.value, fd_t):
+                released = True
+            key = ef['site'][2]
+            leak_sites.setdefault(key, [True, None])
+            if not released:
+                leak_sites[key] = [False, '%s -> %s' % (p_.where[2], row['result'])]
+    for key, (ok_, why) in sorted(leak_sites.items()):
+        chk.ob('C16.V2', 'open:descriptor-released-on-every-path', ok_, key,
+               'the descriptor opened at %s is closed or owned by a closing guard on every path of the open routine' % key if ok_ else
+               'the descriptor opened at %s is neither closed nor owned by anything that closes it on the path ending at %s: every failed '
+               'open attempt leaks a descriptor until the client can open nothing' % (key, why))
+    chk.floor('C16.V2', 'opened descriptors followed to their release', n_open, 2)
     # ---- V3 the record pointer is formed only after the size test passed
     for row in m.rows:
         if row['adds']:
